@@ -23,6 +23,15 @@ type keep struct {
 	big       fmt.Stringer
 	copyOf    string
 	scribbled bool
+	// a result that lives in a caller-owned buffer stays meaningful only
+	// until the caller hands that buffer to the library again
+	owner *privObjs
+	slot  int
+	gen   int
+}
+
+func (k *keep) stale() bool {
+	return k.scribbled || k.owner != nil && k.owner.bufGen[k.slot] != k.gen
 }
 
 func (k *keep) current() string {
@@ -68,6 +77,16 @@ func (r *Result) keepBytes(what string, b []byte) {
 	r.S = append(r.S, string(b))
 	if b != nil {
 		r.keeps = append(r.keeps, &keep{what: what, bytes: b, copyOf: string(b)})
+	}
+}
+
+// keepBytesIn is keepBytes for a result appended to the caller-owned buffer
+// in the given slot (slot < 0: a fresh buffer).
+func (r *Result) keepBytesIn(what string, b []byte, x *Ctx, slot int64) {
+	r.keepBytes(what, b)
+	if b != nil && slot >= 0 && int(slot) < len(x.priv.bufs) {
+		k := r.keeps[len(r.keeps)-1]
+		k.owner, k.slot, k.gen = x.priv, int(slot), x.priv.bufGen[slot]
 	}
 }
 
